@@ -30,6 +30,10 @@ type typeFlow struct {
 	memo  map[*ssa.Function]map[string]bool
 	stack map[*ssa.Function]bool
 	sani  map[*ssa.Function]bool
+	// function values (rules_c06_fv.go): what the function-valued parameters /
+	// fields of the helper being evaluated denote at the call site considered
+	bind    map[fvKey][]*ssa.Function
+	viaBusy map[*ssa.Parameter]bool
 }
 
 func carrierName(t types.Type) (string, bool) {
@@ -154,7 +158,13 @@ func (tf *typeFlow) typesOf(v ssa.Value, fn *ssa.Function, seen map[ssa.Value]bo
 		}
 		out["?load"] = true
 	case *ssa.Parameter:
-		out["param:"+x.Name()] = true
+		// a function only ever called through a function value has no static call
+		// site to substitute its parameter at: resolve it through the value's call sites
+		if ts, ok := tf.paramViaValue(x); ok {
+			add(ts)
+		} else {
+			out["param:"+x.Name()] = true
+		}
 	case *ssa.TypeAssert:
 		add(tf.typesOf(x.X, fn, seen))
 	default:
@@ -296,6 +306,20 @@ func storesTo(al *ssa.Alloc, fn *ssa.Function) []ssa.Value {
 func (tf *typeFlow) callTypes(c *ssa.Call, fn *ssa.Function, seen map[ssa.Value]bool) map[string]bool {
 	out := map[string]bool{}
 	callees := tf.w.calleesOf(c)
+	if c.Call.StaticCallee() == nil && !c.Call.IsInvoke() {
+		// a function value: under a call-site binding, exactly the functions bound;
+		// method values are called through their wrapper
+		if k, ok := fvKeyOf(c.Call.Value); ok && tf.bind != nil {
+			if fs, ok := tf.bind[k]; ok {
+				callees = fs
+			}
+		}
+		var through []*ssa.Function
+		for _, cal := range callees {
+			through = append(through, tf.w.throughWrapper(cal))
+		}
+		callees = through
+	}
 	if len(callees) == 0 {
 		out["ext:dynamic"] = true
 		return out
@@ -446,7 +470,15 @@ func (w *World) ruleCarrierEscape(r *Report, rule, ruleStore string) {
 	// R1b: container stores
 	m := 0
 	for _, fn := range w.SrcFuncs() {
-		if !up[fn] {
+		// the functions that can reach the value dispatch, and the function literals
+		// they write (the store closure handed to a shared element loop)
+		onPath := false
+		for f := fn; f != nil; f = f.Parent() {
+			if up[f] {
+				onPath = true
+			}
+		}
+		if !onPath {
 			continue
 		}
 		cnt := 0
